@@ -53,6 +53,13 @@ pub struct Request {
     /// [IntrospectionMode::Enabled]).
     #[serde(skip)]
     pub introspection_mode: IntrospectionMode,
+
+    /// Reject mutation operations for this request (defaults to `false`).
+    ///
+    /// Set for requests that arrive over HTTP `GET`, which must not have side
+    /// effects.
+    #[serde(skip)]
+    pub disable_mutation: bool,
 }
 
 impl Request {
@@ -67,6 +74,7 @@ impl Request {
             extensions: Default::default(),
             parsed_query: None,
             introspection_mode: IntrospectionMode::Enabled,
+            disable_mutation: false,
         }
     }
 
@@ -103,6 +111,13 @@ impl Request {
     #[must_use]
     pub fn only_introspection(mut self) -> Self {
         self.introspection_mode = IntrospectionMode::IntrospectionOnly;
+        self
+    }
+
+    /// Reject mutation operations for this request.
+    #[must_use]
+    pub fn disable_mutation(mut self) -> Self {
+        self.disable_mutation = true;
         self
     }
 
